@@ -15,41 +15,41 @@ def P(name, quick, thorough, **kw):
 E_ENV = "environment model of the node (DESIGN Appendix C): account handles by shard, rollback on error, exactly-once delivery, refund construction, system-contract discipline"
 
 PROPS = {
-    "C01": dict(profiles=[P("transfers", 3000, 100000)], fields=["status", "diff", "xf"],
+    "C01": dict(profiles=[P("transfers", 3000, 400000)], fields=["status", "diff", "xf"],
                 assumptions=[E_ENV, "destination is never the system account 0xff..ff (global-settings store)"]),
     # a transfer that changes a world total is a supply violation too (the oracle files it under C01)
-    "C02": dict(profiles=[P("supply", 3000, 80000), P("transfers", 1500, 30000)], fields=["status", "diff"], oracle_props=["C02", "C01"],
+    "C02": dict(profiles=[P("supply", 3000, 300000), P("transfers", 1500, 100000)], fields=["status", "diff"], oracle_props=["C02", "C01"],
                 assumptions=[E_ENV]),
-    "C03": dict(profiles=[P("authority", 3000, 80000)], fields=["status", "diff"],
+    "C03": dict(profiles=[P("authority", 3000, 300000)], fields=["status", "diff"],
                 assumptions=[E_ENV, "hand-over messages are delivered with caller = previous holder (as the repository's own cross-shard test does)"]),
-    "C04": dict(profiles=[P("gates", 3000, 100000)], fields=["status", "diff"], assumptions=[E_ENV]),
-    "C05": dict(profiles=[P("frame", 3000, 80000)], fields=["status", "diff"], assumptions=[E_ENV]),
-    "C06": dict(profiles=[P("gas", 4000, 100000)], fields=["status", "gastotal"],
+    "C04": dict(profiles=[P("gates", 3000, 400000)], fields=["status", "diff"], assumptions=[E_ENV]),
+    "C05": dict(profiles=[P("frame", 3000, 300000)], fields=["status", "diff"], assumptions=[E_ENV]),
+    "C06": dict(profiles=[P("gas", 4000, 400000)], fields=["status", "gastotal"],
                 assumptions=["gas-schedule costs are non-zero and < 2^32, argument bytes < 2^31 (as the property states)"]),
-    "C07": dict(profiles=[P("nonces", 3000, 80000)], fields=["status", "diff", "ret", "xf"],
+    "C07": dict(profiles=[P("nonces", 3000, 300000)], fields=["status", "diff", "ret", "xf"],
                 assumptions=[E_ENV, "single-creator discipline; counter < 2^64-1; exactly-once delivery of hand-over messages"]),
-    "C08": dict(profiles=[P("metadata", 3000, 80000)], fields=["status", "diff", "xf", "logs"], assumptions=[E_ENV]),
-    "C09": dict(profiles=[P("transfers", 3000, 80000), P("gates", 1000, 20000)], fields=["status", "diff"],
+    "C08": dict(profiles=[P("metadata", 3000, 160000)], fields=["status", "diff", "xf", "logs"], assumptions=[E_ENV]),
+    "C09": dict(profiles=[P("transfers", 3000, 300000), P("gates", 1000, 100000)], fields=["status", "diff"],
                 assumptions=[E_ENV]),
-    "C10": dict(profiles=[P("transfers", 3000, 80000), P("parsers", 3000, 100000)], fields=["status", "xf", "diff"],
+    "C10": dict(profiles=[P("transfers", 3000, 300000), P("parsers", 3000, 400000)], fields=["status", "xf", "diff"],
                 assumptions=[E_ENV, "attached function names are non-empty and contain no '@' (C12 carve-out)"]),
-    "C11": dict(profiles=[P("adversarial", 5000, 200000), P("transfers", 1000, 30000)], fields=["status", "rc"],
+    "C11": dict(profiles=[P("adversarial", 5000, 600000), P("transfers", 1000, 100000)], fields=["status", "rc"],
                 assumptions=["vmInput and CallValue are non-nil (the node always sets them)", E_ENV,
                              "real allocation size is a runtime quantity the model cannot exhibit (partial): the model bounds every allocation by the argument count"]),
     "C12": dict(profiles=[P("parsers", 20000, 400000)], fields=["status"], strict=True),
-    "C13": dict(profiles=[P("determinism", 2000, 60000)], fields=["status", "gas", "rc", "ret", "logs", "xf", "oa", "diff"],
+    "C13": dict(profiles=[P("determinism", 2000, 200000)], fields=["status", "gas", "rc", "ret", "logs", "xf", "oa", "diff"],
                 assumptions=["runtime aspects (map iteration order, goroutines, slice aliasing) are outside any Lean model (partial): decided by run-vs-run comparison on the implementation plus the regenerated zero-spare-capacity fact"]),
     "C14": dict(profiles=[P("codec", 20000, 400000)], fields=["status"], strict=True),
     # xf: the hand-over message carries the counter the next holder will hold (the "counter ≥ issued nonces" clause)
-    "C15": dict(profiles=[P("supply", 2000, 50000), P("transfers", 2000, 50000), P("nonces", 1000, 30000)],
+    "C15": dict(profiles=[P("supply", 2000, 200000), P("transfers", 2000, 200000), P("nonces", 1000, 100000)],
                 fields=["status", "diff", "xf"], assumptions=[E_ENV]),
-    "C16": dict(profiles=[P("gas", 4000, 100000)], fields=["status", "gas", "xf"],
+    "C16": dict(profiles=[P("gas", 4000, 400000)], fields=["status", "gas", "xf"],
                 assumptions=["gas maps never spell one field in two different cases (mapstructure would depend on map order)"]),
-    "C17": dict(profiles=[P("faults", 3000, 60000)], fields=["status", "deps"], strict=True,
+    "C17": dict(profiles=[P("faults", 3000, 200000)], fields=["status", "deps"], strict=True,
                 assumptions=["storage reads and the pause lookup are fail-soft by interface design (excluded by the property)"]),
     # registry binding is behavioural: every name must price and behave as the function of that name right after the
     # factory built the container (before any schedule change) -> the gas profile (distinct prime costs) runs here too
-    "C18": dict(profiles=[P("activation", 4000, 40000), P("gas", 2500, 40000), P("supply", 1000, 10000)],
+    "C18": dict(profiles=[P("activation", 4000, 40000), P("gas", 2500, 160000), P("supply", 1000, 40000)],
                 fields=["status", "gas", "diff"], oracle_props=["C18", "C16"]),
     "C19": dict(profiles=[], fields=["status"],
                 assumptions=["a data race is an event of the Go memory model no Lean model exhibits (partial): the lock discipline is decided in Lean on regenerated lock facts, races are searched with -race stress"]),
